@@ -331,6 +331,14 @@ def cases(ctx):
     for T2 in ('Text', 'Any', 'Int', 'Bool', 'Numeric', 'Choice'):
       if T != T2:
         out.append({'T': T, 'T2': T2, 'raw': True, 'vals': list(runs), 'two_way': False})
+  # texts that are almost JSON lists (leading / trailing white space, BOM, unbalanced): the list-valued columns' set()
+  # must not read more into them than the types' conversions do
+  near = [' ["a"]', '\n[3]', '\t[]', ' [1, 2]', '[1] ', '[1]\n', '\ufeff[1]', ' [', '[', '[1', ' ["a","b"] ', '[1, 2]',
+          '["a"]', ' 5', '[2]', '  [2, 3]', '\r\n["x"]']
+  for T in ('Text', 'Any', 'Choice'):
+    for T2 in ('ChoiceList', 'RefList:U', 'Attachments'):
+      for raw in (False, True):
+        out.append({'T': T, 'T2': T2, 'raw': raw, 'vals': list(near), 'two_way': False})
   # two-way references: Ref <-> RefList with a reverse column
   for T, T2 in (('Ref:U', 'RefList:U'), ('RefList:U', 'Ref:U')):
     for k in range(ctx.n(2, 12)):
@@ -522,6 +530,9 @@ PIN_DOCACTION = ['old_column = table.get_column(col_id)', 'new_column = table.ge
 # canonical AST of the text the zone stream's reference was written against
 PIN_USERTYPES = {'BaseColumnType.convert': '1a0f3a55e506d43ff7768746546b79d3169b35af', 'Date.do_convert': '50a5f913f123d97c825b93bfb14860329fa124e4', 'DateTime.do_convert': 'a2a3e3a54caa085aa1943f8c077076f23e2cfbc7'}
 
+# the storing normalisations (set / _clean_up_value) and column-level conversions the set-neutrality facts are about
+PIN_COLUMN = {'BaseColumn.set': '246cdfdfe449c374b3a7e7daafa679c28acf6bab', 'BoolColumn.set': 'a2315f2289f6a6a3cbcc2f2cf981d07df273f5f8', 'NumericColumn.set': '53bdd913d9351c5be16cb811b4ee8e83a5130a7f', 'ChoiceListColumn.set': 'ddebe7d16915b77c81bd05e23cd32b6b59bdbc0c', 'BaseReferenceColumn.set': '991a34221c9b3ea6dc97e3a27c32ea3784b74a53', 'ReferenceColumn._clean_up_value': 'b9a940d711abc1e30a1b3ae40396ffb02a3bdca0', 'ReferenceListColumn._clean_up_value': 'c1d2c8882771f588dff966699e0c50792c9e4ebb', 'BaseColumn.raw_get': '8bd24ee5b3c3f853b217a08aed86f760d0a22d28', 'BaseColumn.convert': '0633c3a472687c3bfbc068f06874824f765e21cd', 'ReferenceColumn.convert': '2e56dd4c07f48b708fbc9a335a82aab57815198a', 'ReferenceListColumn.convert': '594b1b6aef7bce87b8f407608dd7c899ee3e223b'}
+
 CONV_BINDING = {
   'names': {'new_column': 'new_column'}, 'exprs': {'all_rows': 'all_rows'},
   'index': {'all_old_values': 'all_old_values {0}'},
@@ -556,12 +567,13 @@ def regenerate(ctx):
     if len(loops) != 1 or texts.index(PIN_DOCACTION[1]) + 1 != body.index(loops[0]):
       raise core.TieBroken('docactions.ModifyColumn: the fill loop does not follow `new_column = table.get_column(col_id)`')
     fill = sm2v.Tr(FILL_BINDING).block(loops, ['new_column'])
-    for q, h in PIN_USERTYPES.items():
-      f3 = sm2v.find_function(os.path.join(core.GRIST, 'usertypes.py'), q)
+    for q, h in list(PIN_USERTYPES.items()) + list(PIN_COLUMN.items()):
+      src = 'column.py' if q in PIN_COLUMN else 'usertypes.py'
+      f3 = sm2v.find_function(os.path.join(core.GRIST, src), q)
       txt = sm2v.pin(sm2v.strip_doc(f3.body)) + '|' + sm2v.ast.dump(f3.args, annotate_fields=False)
       if hashlib.sha1(txt.encode()).hexdigest() != h:
-        raise core.TieBroken('usertypes.%s is not the text the check was written from (a conversion must be a function '
-                             'of the type object and the value)' % q)
+        raise core.TieBroken('%s %s is not the text the check was written from (conversions must be functions of the '
+                             'type object and the value; set() must leave converted values alone)' % (src, q))
   except (sm2v.Untranslatable, core.TieBroken) as e:
     # no stale generated code: the bridging obligations cannot be discharged until the source is translatable again
     core.write_if_changed(os.path.join(core.COQ, 'gen', 'ModifyColumn_gen.v'),
